@@ -29,10 +29,10 @@ Definition ipv6_text (s : str) : Prop :=
   (exists l r q, Forall h16 l /\ Forall h16 r /\ dotted_quad q /\ (length l + length r <= 5)%nat /\
                  s = colons l ++ [58; 58] ++ colons (r ++ [q])).
 
-(* address, or address%scope with a scope id of 1..15 arbitrary characters other than '%' *)
+(* address, or address%scope with a scope id of 1..15 characters other than '%' and '/' *)
 Definition ipv6_scoped_text (s : str) : Prop :=
   ipv6_text s \/
-  exists a sc, ipv6_text a /\ (1 <= length sc <= 15)%nat /\ ~ In 37 sc /\ s = a ++ [37] ++ sc.
+  exists a sc, ipv6_text a /\ (1 <= length sc <= 15)%nat /\ ~ In 37 sc /\ ~ In 47 sc /\ s = a ++ [37] ++ sc.
 
 (* xx:xx:xx:xx:xx:xx *)
 Definition hex_pair (p : str) : Prop := length p = 2%nat /\ Forall hex_char p.
